@@ -1,4 +1,5 @@
 """C18 - randomised steps are deterministic in their inputs and the given generator/seed."""
+import contextlib
 import json
 
 import numpy as np
@@ -22,6 +23,7 @@ RULE = (
     "followed by j unrelated draws); the fixed cases are additionally executed in fresh interpreters started with other PYTHONHASHSEED values and compared across "
     "processes. Non-trivial = the operation actually consumed randomness (a third run with another seed gives a different output). "
     "distinct = distinct (operation, case JSON)."
+    ' Training operations: in a third of the cases a drawn set of Cholesky factorisations fails (injected numpy LinAlgError), identically in every compared run.'
 )
 ASSUMPTIONS = [
     "operations that raise for the generated parameters are counted and skipped (they must raise in both runs)",
@@ -88,6 +90,8 @@ def _case(draw, op=None):
         "D": draw(st.integers(1, 2)),
         "k": draw(st.integers(1, 2)),
     }
+    if op.startswith("sample:") and draw(st.integers(0, 2)) == 0:
+        c["chol_fail"] = sorted(set(draw(st.lists(st.integers(0, 40), min_size=1, max_size=4))))
     return c
 
 
@@ -181,7 +185,10 @@ def _fixed_cases():
                 # third variant of the training operations: observed combination viabilities at and beyond the bounds
                 edge = iter([1.0, 0.0, 1.05])
                 sc_ = dict(sc, rows=[dict(r, o=next(edge, r["o"])) if (r["p"].endswith("_obs") and "ctl" not in r["t"]) else r for r in rows])
-            yield {"op": op, "screen": sc_, "seed": seed, "ambient": amb, "ambient_draws": draws, "params": p, "flag": flag, "fraction": frac, "n_thetas": 6 + variant % 2, "D": 1 + variant % 2, "k": 1 + variant % 2}
+            c_ = {"op": op, "screen": sc_, "seed": seed, "ambient": amb, "ambient_draws": draws, "params": p, "flag": flag, "fraction": frac, "n_thetas": 6 + variant % 2, "D": 1 + variant % 2, "k": 1 + variant % 2}
+            if variant == 1 and op.startswith("sample:"):
+                c_["chol_fail"] = [0, 3, 9, 17, 30]  # training that meets (injected) Cholesky breakdowns
+            yield c_
 
 
 # ---------------------------------------------------------------- canonical outputs
@@ -225,6 +232,40 @@ def _obj(cache, key, make):
 
 
 _SEEDSEQS = {}
+
+
+@contextlib.contextmanager
+def _cholesky_faults(indices):
+    """fault injection: the Cholesky factorisations numbered `indices` (counted from the start of this block) fail with numpy's
+    'not positive definite' error - the numerical breakdown the sampler anticipates and survives.  Whatever the code does about
+    it (skip the update, retry, give up) is part of the operation: with the same data, seed and faults it must do the same thing"""
+    if not indices:
+        yield
+        return
+    import scipy.linalg as sl
+
+    todo = set(int(i) for i in indices)
+    count = [0]
+    orig = [(np.linalg, "cholesky", np.linalg.cholesky), (sl, "cholesky", sl.cholesky), (sl, "cho_factor", sl.cho_factor)]
+
+    def mk(f):
+        def faulty(*a, **k):
+            i = count[0]
+            count[0] += 1
+            if i in todo:
+                raise np.linalg.LinAlgError("Matrix is not positive definite")
+            return f(*a, **k)
+
+        faulty.__name__ = f.__name__
+        return faulty
+
+    for m_, n_, f_ in orig:
+        setattr(m_, n_, mk(f_))
+    try:
+        yield
+    finally:
+        for m_, n_, f_ in orig:
+            setattr(m_, n_, f_)
 
 
 def _gen(seed):
@@ -302,7 +343,15 @@ def run_op(case, seed, cache=None):
             observed = screen.subset_observed()
             if observed is not None:  # like train_model: no observed experiments -> sample from the prior
                 model.add_observations(observed)
-            h = sampling.sample(model=model, results=ThetaHolder(n_thetas=3), seed=seed, n_chains=2, chain_index=1, n_burnin=1, thin=1)
+            with _cholesky_faults(case.get("chol_fail")):
+                h = sampling.sample(model=model, results=ThetaHolder(n_thetas=3), seed=seed, n_chains=2, chain_index=1, n_burnin=1, thin=1)
+            if case.get("chol_fail"):
+                rep_ = cls(experiment_space=ExperimentSpace.from_screen(screen), n_embedding_dimensions=case["D"])
+                if observed is not None:
+                    rep_.add_observations(observed)
+                with _cholesky_faults(case["chol_fail"]):
+                    hr_ = sampling.sample(model=rep_, results=ThetaHolder(n_thetas=3), seed=seed, n_chains=2, chain_index=1, n_burnin=1, thin=1)
+                require(canon_thetas(hr_) == canon_thetas(h), op + ".repeatable_when_factorisations_fail", lambda: "two trainings with identical data, seed and the same (injected) Cholesky failures %r give different posterior samples" % (case["chol_fail"],))
             # two more models of the same class, alive together and stepped in turn, each with its own seeded generator: the first one's
             # states are those of a model stepped alone with that generator (another live model is not an input)
             def fresh_model(rng_seed):
@@ -334,7 +383,8 @@ def run_op(case, seed, cache=None):
                 again_ = cls(experiment_space=ExperimentSpace.from_screen(screen), n_embedding_dimensions=case["D"])
                 if observed is not None:
                     again_.add_observations(observed)
-                h2_ = sampling.sample(model=again_, results=ThetaHolder(n_thetas=3), seed=seed, n_chains=2, chain_index=1, n_burnin=1, thin=1)
+                with _cholesky_faults(case.get("chol_fail")):
+                    h2_ = sampling.sample(model=again_, results=ThetaHolder(n_thetas=3), seed=seed, n_chains=2, chain_index=1, n_burnin=1, thin=1)
             require(canon_thetas(h2_) == canon_thetas(h), op + ".independent_of_earlier_trainings", "the same training (data, seed, chain) gives other posterior samples after a model with more embedding dimensions was trained in the same process")
             require(state(a_) == state(solo_), op + ".independent_of_other_live_models", "a model stepped in turn with another live model of its class (each with its own seeded generator) reaches another state than the same model stepped alone")
             return canon_thetas(h)
